@@ -1,8 +1,304 @@
-import Quanto.Spec.C02
-import Quanto.Spec.C01
+/-
+Property C16 — finite tensors never quantize to NaN / Inf whatever their range; a layer whose
+weights are all zero outputs exactly its bias.
+
+The theorems are corollaries of C01–C03 with every guard stated explicitly:
+* the repaired (clamped) absmax optimizer returns a finite, strictly positive scale (T1);
+* with a finite, strictly positive scale the stored code is finite (T2) and its dequantized
+  value is finite as soon as `scale·|code|` is representable (T3) — the guard is necessary, see
+  `C16_counterexample_deq_overflow_f16`;
+* all-zero slices / groups give code 0 and dequantize to exactly 0 (T4, T5);
+* the affine dequantizer is finite when `|scale|·|code - zeropoint|` is representable (T6);
+* the linear forward of an all-zero weight row returns the bias exactly (T7).
+-/
+import Proofs.Properties.C01
+import Proofs.Properties.C02
+import Proofs.Properties.C03
+
 namespace Quanto
+
+/-! ## T1 — the repaired optimizer never returns a null, infinite or NaN scale -/
+
+/-- T1: for a finite slice (absolute maximum `0 ≤ a ≤ F.maxFin`) the clamped absmax scale is a
+finite, strictly positive number. -/
+theorem C16_weight_scale_positive (F : Fmt) (hF : WorkFmt F) (qmax : Rat) (hq : 1 ≤ qmax)
+    (a : Rat) (ha0 : 0 ≤ a) (ha : a ≤ F.maxFin) :
+    ∃ sq, absmaxOf F qmax true (.fin a) = .fin sq ∧ 0 < sq := by
+  obtain ⟨sq, h, hmin, -⟩ := C03_clamped_scale F hF qmax hq a ha0 ha
+  exact ⟨sq, h, lt_of_lt_of_le (minPos_pos F) hmin⟩
+
+/-- T1 at the level of a slice: the scale selected for the finite values `xs` (non-empty, all
+magnitudes at most `F.maxFin`) is finite and strictly positive. -/
+theorem C16_weight_scale_positive_slice (F : Fmt) (hF : WorkFmt F) (qmax : Rat) (hq : 1 ≤ qmax)
+    (xs : List Rat) (hne : xs ≠ []) (hx : ∀ x ∈ xs, |x| ≤ F.maxFin) :
+    ∃ sq, absmaxOf F qmax true (foldSlice FV.max (xs.map fun x => FV.abs (.fin x))) = .fin sq ∧
+      0 < sq := by
+  rw [C03_absmax_value xs hne]
+  refine C16_weight_scale_positive F hF qmax hq _ (listAbsMax_nonneg xs) ?_
+  -- the maximum of magnitudes that are all `≤ maxFin` is `≤ maxFin`
+  have key : ∀ (l : List Rat) (b : Rat), b ≤ F.maxFin → (∀ x ∈ l, |x| ≤ F.maxFin) →
+      l.foldl (fun a x => max a |x|) b ≤ F.maxFin := by
+    intro l
+    induction l with
+    | nil => intro b hb _; simpa using hb
+    | cons y ys ih =>
+      intro b hb hl
+      rw [List.foldl_cons]
+      exact ih _ (max_le hb (hl y (by simp))) (fun x hx' => hl x (by simp [hx']))
+  exact key xs 0 (by linarith [work_maxFin_ge F hF]) hx
+
+/-! ## T2, T3 — finite input, positive scale: finite code, finite dequantized value -/
+
+/-- T2: a finite input and a finite, strictly positive scale never give a NaN / Inf code. -/
+theorem C16_sym_code_finite (F : Fmt) (hF : WorkFmt F) (Q : QT) (x sq : Rat) (hs : 0 < sq) :
+    ∃ c, symCode F Q (.fin x) (.fin sq) = .fin c := by
+  obtain ⟨c, h, -⟩ := C01_code_in_grid F hF Q x sq hs
+  exact ⟨c, h⟩
+
+/-- T3: the dequantized value of the code `c` is finite whenever the exact product `sq·|c|` does
+not exceed the largest finite value of `F`. -/
+theorem C16_sym_deq_finite (F : Fmt) (hF : WorkFmt F) (sq c : Rat) (hs : 0 < sq)
+    (h : sq * |c| ≤ F.maxFin) : ∃ y, symDeq F (.fin c) (.fin sq) = .fin y :=
+  C01_deq_finite F hF .qint8 0 sq hs c h
+
+/-- every grid value has magnitude at most `-qmin` (128 for qint8, `qmax` for the float8 types) -/
+theorem C16_grid_abs_le (Q : QT) {c : Rat} (hc : Q.InGrid c) : |c| ≤ -Q.qmin := by
+  obtain ⟨h1, h2⟩ := QT.inGrid_bounds hc
+  have h3 : Q.qmax ≤ -Q.qmin := by cases Q <;> norm_num [QT.qmax, QT.qmin]
+  exact abs_le.mpr ⟨by linarith, by linarith⟩
+
+/-- T3 (usable guard): if `sq·(-qmin)` is representable (`sq·128` for qint8, `sq·448` for e4m3,
+`sq·57344` for e5m2) then quantize-dequantize of any finite `x` is finite.  The weaker guard
+`sq·qmax ≤ F.maxFin` is not sufficient for qint8, whose grid is asymmetric
+(`C16_counterexample_qmax_guard_int8`). -/
+theorem C16_sym_deq_finite_of_scale (F : Fmt) (hF : WorkFmt F) (Q : QT) (sq : Rat) (hs : 0 < sq)
+    (h : sq * (-Q.qmin) ≤ F.maxFin) (x : Rat) :
+    ∃ c y, symCode F Q (.fin x) (.fin sq) = .fin c ∧ symDeq F (.fin c) (.fin sq) = .fin y := by
+  obtain ⟨c, hc, hg⟩ := C01_code_in_grid F hF Q x sq hs
+  have hb := C16_grid_abs_le Q hg
+  obtain ⟨y, hy⟩ := C16_sym_deq_finite F hF sq c hs
+    (le_trans (mul_le_mul_of_nonneg_left hb hs.le) h)
+  exact ⟨c, y, hc, hy⟩
+
+/-- T3 (usable guard, float8 qtypes): for e4m3 / e5m2 the guard is `sq·qmax ≤ F.maxFin`. -/
+theorem C16_sym_deq_finite_of_scale_float8 (F : Fmt) (hF : WorkFmt F) (Q : QT)
+    (hQ : Q.isFloat = true) (sq : Rat) (hs : 0 < sq) (h : sq * Q.qmax ≤ F.maxFin) (x : Rat) :
+    ∃ c y, symCode F Q (.fin x) (.fin sq) = .fin c ∧ symDeq F (.fin c) (.fin sq) = .fin y := by
+  apply C16_sym_deq_finite_of_scale F hF Q sq hs _ x
+  rw [QT.qmin_float hQ, neg_neg]; exact h
+
+/-- T3 (partial, qint8 with the `qmax` guard): under `sq·127 ≤ F.maxFin` the dequantized value
+is finite for every code except the extra negative one, `-128`. -/
+theorem C16_sym_deq_finite_of_scale_int8_partial (F : Fmt) (hF : WorkFmt F) (sq : Rat)
+    (hs : 0 < sq) (h : sq * QT.qmax .qint8 ≤ F.maxFin) (x : Rat) :
+    ∃ c, symCode F .qint8 (.fin x) (.fin sq) = .fin c ∧
+      (c ≠ -128 → ∃ y, symDeq F (.fin c) (.fin sq) = .fin y) := by
+  obtain ⟨c, hc, hg⟩ := C01_code_in_grid F hF .qint8 x sq hs
+  refine ⟨c, hc, fun hne => ?_⟩
+  obtain ⟨n, rfl, h1, h2⟩ := hg
+  have hn : n ≠ -128 := by rintro rfl; exact hne (by norm_num)
+  have hb : |(n : Rat)| ≤ 127 := by
+    have : |n| ≤ 127 := abs_le.mpr ⟨by omega, h2⟩
+    exact_mod_cast this
+  exact C16_sym_deq_finite F hF sq _ hs
+    (le_trans (mul_le_mul_of_nonneg_left hb hs.le) (by simpa [QT.qmax] using h))
+
+/-! ## T4 — all-zero slices (symmetric, all three 8-bit qtypes) -/
+
+/-- the code of `0` is `0` for every strictly positive finite scale -/
+theorem C16_sym_code_zero (F : Fmt) (hF : WorkFmt F) (Q : QT) (sq : Rat) (hs : 0 < sq) :
+    symCode F Q (.fin 0) (.fin sq) = .fin 0 := by
+  have h0 : F.fl (.fin (0 / sq)) = .fin 0 := by rw [zero_div]; exact fl_zero F hF
+  rw [symCode_of_fin F Q 0 sq 0 hs.ne' h0]
+  congr 1
+  have hm : clampR Q.qmin Q.qmax 0 = 0 := clampR_of_mem Q.qmin_neg.le Q.qmax_pos.le
+  unfold codeOf
+  split_ifs
+  · rw [hm, rndFin_zero]
+  · have : ((rhe 0 : Int) : Rat) = 0 := by
+      have := rhe_int 0
+      simp only [Int.cast_zero] at this
+      rw [this]; rfl
+    rw [this, hm]
+
+/-- the code `0` dequantizes to exactly `0` with every finite scale -/
+theorem C16_sym_deq_zero (F : Fmt) (hF : WorkFmt F) (sq : Rat) :
+    symDeq F (.fin 0) (.fin sq) = .fin 0 := by
+  rw [symDeq_eq, mul_zero]; exact fl_zero F hF
+
+/-- T4: an all-zero row / tensor / batch (absolute maximum 0) gets the scale `F.minPos` from the
+repaired optimizer, is stored as the code `0` and dequantizes to exactly `0` — for the three
+8-bit qtypes and any divisor `qmax ≥ 1`. -/
+theorem C16_zero_slice (F : Fmt) (hF : WorkFmt F) (Q : QT) (qmax : Rat) (hq : 1 ≤ qmax) :
+    absmaxOf F qmax true (.fin 0) = .fin F.minPos ∧
+    symCode F Q (.fin 0) (absmaxOf F qmax true (.fin 0)) = .fin 0 ∧
+    symDeq F (.fin 0) (absmaxOf F qmax true (.fin 0)) = .fin 0 := by
+  have hs : absmaxOf F qmax true (.fin 0) = .fin F.minPos := by
+    have := C03_zero_slice_clamped F hF qmax hq [] (by simp [listAbsMax])
+    simpa [listAbsMax] using this
+  rw [hs]
+  exact ⟨rfl, C16_sym_code_zero F hF Q _ (minPos_pos F), C16_sym_deq_zero F hF _⟩
+
+/-! ## T5, T6 — affine (2/4-bit) dequantizer -/
+
+/-- T5: in an all-zero group the selected scale is `0` and every stored code dequantizes to
+exactly `0`, whatever the zero-point. -/
+theorem C16_zero_group_affine (F : Fmt) (hF : WorkFmt F) (bits : Nat) (hb : bits = 2 ∨ bits = 4) :
+    ∀ (c : Nat) (z : Int), affDeq F c (maxOptScale F bits (.fin 0) (.fin 0)) z = .fin 0 := by
+  intro c z
+  rw [C02_scale_zero_group F hF bits hb]
+  exact C02_zero_group_deq F hF c z
+
+/-- the int8 difference `code - zeropoint` (after wrap-around) has magnitude at most 128 -/
+theorem C16_wrapInt8_abs_le (n : Int) : |((wrapInt8 n : Int) : Rat)| ≤ 128 := by
+  have h : |wrapInt8 n| ≤ 128 := by
+    unfold wrapInt8
+    exact abs_le.mpr ⟨by omega, by omega⟩
+  exact_mod_cast h
+
+/-- T6 (tight guard): the affine dequantized value is finite whenever
+`|scale|·|code - zeropoint|` (int8 difference) does not exceed the largest finite value of `F`.
+No sign assumption on the scale is needed. -/
+theorem C16_affine_deq_finite (F : Fmt) (hF : WorkFmt F) (c : Nat) (sq : Rat) (z : Int)
+    (h : |sq| * |((wrapInt8 (wrapInt8 c - z) : Int) : Rat)| ≤ F.maxFin) :
+    ∃ y, affDeq F c (.fin sq) z = .fin y := by
+  refine ⟨F.flR (sq * ((wrapInt8 (wrapInt8 c - z) : Int) : Rat)), ?_⟩
+  show F.fl (.fin (sq * _)) = _
+  apply fl_fin_of_le F hF
+  rwa [abs_mul]
+
+/-- T6 (usable guard): if `|scale|·128` is representable, every code and zero-point dequantize
+to a finite value. -/
+theorem C16_affine_deq_finite_of_scale (F : Fmt) (hF : WorkFmt F) (sq : Rat)
+    (h : |sq| * 128 ≤ F.maxFin) :
+    ∀ (c : Nat) (z : Int), ∃ y, affDeq F c (.fin sq) z = .fin y := by
+  intro c z
+  apply C16_affine_deq_finite F hF
+  exact le_trans (mul_le_mul_of_nonneg_left (C16_wrapInt8_abs_le _) (abs_nonneg sq)) h
+
+/-! ## T7 — a layer whose weights are all zero outputs exactly its bias -/
+
+/-- the dot product of finite inputs with an all-zero (dequantized) weight row is exactly 0 -/
+theorem C16_zero_dot (F : Fmt) (hF : WorkFmt F) (xs : List Rat) :
+    (xs.map fun x => F.mul (.fin x) (.fin 0)).foldl F.add (.fin 0) = .fin 0 := by
+  have hmul : ∀ x : Rat, F.mul (.fin x) (.fin 0) = .fin 0 := by
+    intro x
+    show F.fl (.fin (x * 0)) = _
+    rw [mul_zero]; exact fl_zero F hF
+  have hadd : F.add (.fin 0) (.fin 0) = .fin 0 := by
+    show F.fl (.fin (0 + 0)) = _
+    rw [add_zero]; exact fl_zero F hF
+  induction xs with
+  | nil => rfl
+  | cons x xs ih =>
+    rw [List.map_cons, List.foldl_cons, hmul, hadd]
+    exact ih
+
+/-- T7: linear forward in the model's float arithmetic.  For finite inputs `xs`, an all-zero
+weight row and a bias `b` that is a finite number of `F`, the output
+`(Σ xᵢ·0) + b` is exactly `b`. -/
+theorem C16_zero_layer (F : Fmt) (hF : WorkFmt F) (xs : List Rat) (b : Rat) (hb : F.Rep b)
+    (hbm : |b| ≤ F.maxFin) :
+    F.add ((xs.map fun x => F.mul (.fin x) (.fin 0)).foldl F.add (.fin 0)) (.fin b) = .fin b := by
+  rw [C16_zero_dot F hF xs]
+  show F.fl (.fin (0 + b)) = _
+  rw [zero_add]
+  exact fl_of_rep F hF b hb hbm
+
+/-- T7 composed with T4: the weights of the row are the dequantized codes of an all-zero row
+quantized with the scale selected by the repaired optimizer. -/
+theorem C16_zero_layer_quantized (F : Fmt) (hF : WorkFmt F) (Q : QT) (qmax : Rat) (hq : 1 ≤ qmax)
+    (xs : List Rat) (b : Rat) (hb : F.Rep b) (hbm : |b| ≤ F.maxFin) :
+    let s := absmaxOf F qmax true (.fin 0)
+    let w := symDeq F (symCode F Q (.fin 0) s) s
+    F.add ((xs.map fun x => F.mul (.fin x) w).foldl F.add (.fin 0)) (.fin b) = .fin b := by
+  intro s w
+  obtain ⟨-, h2, h3⟩ := C16_zero_slice F hF Q qmax hq
+  have hw : w = .fin 0 := by show symDeq F (symCode F Q (.fin 0) s) s = _; rw [h2]; exact h3
+  rw [hw]
+  exact C16_zero_layer F hF xs b hb hbm
+
+/-! ## T8 — recorded findings (counterexamples) -/
 
 /-- all-zero float8 slice with a zero scale: 0/0 is NaN (the defect repaired by clamping the scale) -/
 theorem C16_counterexample_zero_scale_float8 : symCode f32 .e4m3 (.fin 0) (.fin 0) = .nan := by decide +kernel
+
+/-- the original optimizer returned a null scale for an all-zero row -/
+theorem C16_counterexample_unclamped_zero_row : absmaxOf f32 127 false (.fin 0) = .fin 0 := by
+  decide +kernel
+
+/-- the guard of T3 is necessary: a float16 row whose maximum is the largest float16 number gets
+the scale 516, the code 127, and dequantizes to `+inf` (`516·127 = 65532 > 65504`). -/
+theorem C16_counterexample_deq_overflow_f16 :
+    absmaxOf f16 127 true (.fin 65504) = .fin 516 ∧
+    symCode f16 .qint8 (.fin 65504) (.fin 516) = .fin 127 ∧
+    symDeq f16 (.fin 127) (.fin 516) = .pinf := by
+  decide +kernel
+
+/-- for qint8 the guard `sq·qmax ≤ F.maxFin` is not sufficient: with the float16 scale 1027/2
+(`513.5·127 = 65214.5 ≤ 65504`) the finite input `-65504` is stored as `-128`, which
+dequantizes to `-inf`. -/
+theorem C16_counterexample_qmax_guard_int8 :
+    (1027 / 2 : Rat) * QT.qmax .qint8 ≤ f16.maxFin ∧
+    symCode f16 .qint8 (.fin (-65504)) (.fin (1027 / 2)) = .fin (-128) ∧
+    symDeq f16 (.fin (-128)) (.fin (1027 / 2)) = .ninf := by
+  decide +kernel
+
+/-- the finiteness of the inputs in T7 is necessary: `inf·0` is NaN -/
+theorem C16_counterexample_zero_layer_inf_input : f32.mul .pinf (.fin 0) = .nan := by
+  decide +kernel
+
+/-! ## non-vacuity: concrete instances of T1–T4 -/
+
+/-- T1 at float16, qmax = 127, a = 1: the hypotheses hold. -/
+example : ∃ sq, absmaxOf f16 127 true (.fin 1) = .fin sq ∧ 0 < sq :=
+  C16_weight_scale_positive f16 (by simp [WorkFmt]) 127 (by norm_num) 1 (by norm_num)
+    (by norm_num [Fmt.maxFin, f16, pow2_eq])
+
+/-- … and the scale it produces is 129/16384. -/
+example : absmaxOf f16 127 true (.fin 1) = .fin (129 / 16384) := by decide +kernel
+
+/-- T1 on the slice `[1/3, -2, 5/4]` in bfloat16 with the e4m3 divisor. -/
+example : ∃ sq, absmaxOf bf16 448 true
+    (foldSlice FV.max (([1 / 3, -2, 5 / 4] : List Rat).map fun x => FV.abs (.fin x))) = .fin sq ∧
+      0 < sq :=
+  C16_weight_scale_positive_slice bf16 (by simp [WorkFmt]) 448 (by norm_num) _ (by simp)
+    (by
+      have h : (2 : Rat) ≤ bf16.maxFin := by norm_num [Fmt.maxFin, bf16, pow2_eq]
+      intro x hx
+      simp only [List.mem_cons, List.not_mem_nil, or_false] at hx
+      rcases hx with rfl | rfl | rfl <;> refine le_trans ?_ h <;> norm_num [abs_le])
+
+/-- T2 at float16 / e4m3, x = 1/3, scale 1/100. -/
+example : ∃ c, symCode f16 .e4m3 (.fin (1 / 3)) (.fin (1 / 100)) = .fin c :=
+  C16_sym_code_finite f16 (by simp [WorkFmt]) .e4m3 (1 / 3) (1 / 100) (by norm_num)
+
+/-- T3 at float16, scale 1/100, code 33: `33/100 ≤ 65504`. -/
+example : ∃ y, symDeq f16 (.fin 33) (.fin (1 / 100)) = .fin y :=
+  C16_sym_deq_finite f16 (by simp [WorkFmt]) (1 / 100) 33 (by norm_num)
+    (by norm_num [Fmt.maxFin, f16, pow2_eq])
+
+/-- T3 (usable guard) at float16 / qint8, scale 500: `500·128 = 64000 ≤ 65504`. -/
+example : ∃ c y, symCode f16 .qint8 (.fin (-65504)) (.fin 500) = .fin c ∧
+    symDeq f16 (.fin c) (.fin 500) = .fin y :=
+  C16_sym_deq_finite_of_scale f16 (by simp [WorkFmt]) .qint8 500 (by norm_num)
+    (by norm_num [Fmt.maxFin, f16, pow2_eq, QT.qmin]) (-65504)
+
+/-- T4 at float16 / e5m2: the scale of the all-zero slice is the smallest subnormal `2^-24`. -/
+example : absmaxOf f16 57344 true (.fin 0) = .fin (pow2 (-24)) ∧
+    symCode f16 .e5m2 (.fin 0) (absmaxOf f16 57344 true (.fin 0)) = .fin 0 ∧
+    symDeq f16 (.fin 0) (absmaxOf f16 57344 true (.fin 0)) = .fin 0 :=
+  C16_zero_slice f16 (by simp [WorkFmt]) .e5m2 57344 (by norm_num)
+
+/-- T6 at float16, 4-bit code 15, zero-point 8, scale 1/10. -/
+example : ∃ y, affDeq f16 15 (.fin (1 / 10)) 8 = .fin y :=
+  C16_affine_deq_finite_of_scale f16 (by simp [WorkFmt]) (1 / 10)
+    (by norm_num [Fmt.maxFin, f16, pow2_eq, abs_of_pos]) 15 8
+
+/-- T7 at float32 with inputs `[1/3, -7, 1000]` and bias `3/4`. -/
+example : f32.add (([1 / 3, -7, 1000] : List Rat).map (fun x => f32.mul (.fin x) (.fin 0))
+    |>.foldl f32.add (.fin 0)) (.fin (3 / 4)) = .fin (3 / 4) :=
+  C16_zero_layer f32 (by simp [WorkFmt]) _ (3 / 4) ⟨3, -2, by norm_num, by norm_num [f32], by
+    simp only [f32]; omega⟩ (by norm_num [Fmt.maxFin, f32, pow2_eq, abs_of_pos])
 
 end Quanto
